@@ -206,7 +206,7 @@ pub fn run(out: &mut Out, rng: &mut Rng, thorough: bool) {
 		}
 	}
 	// Collections wider than any preallocation cap, and past the 16-bit header.
-	for n in [4096usize, 4097, 5000, 65536] {
+	for n in [4096usize, 4097, 5000, 32768, 40000, 65535, 65536] {
 		let arr = Val::Seq((0..n).map(|i| Val::Int((i % 9) as i128)).collect());
 		let map = Val::Map((0..n).map(|i| (Val::Str(format!("k{i}")), Val::Int(1))).collect());
 		for v in [arr, map] {
